@@ -251,6 +251,119 @@ var specC14Pairs = Register(&Spec[DebCase]{
 	Check: checkDebCase,
 })
 
+// ------------------------------------------------------------------ several packages open at once
+
+type OverlapCase struct {
+	A         DebModel `json:"a"`
+	B         DebModel `json:"b"`
+	SameBytes bool     `json:"sameBytes"` // B is A again (same bytes loaded twice)
+	ReadOrder []int    `json:"readOrder"` // order in which the open handles are drained (indices 0..2)
+}
+
+func drainData(d *deb.Deb, m DebModel) error {
+	var got []TarFile
+	for {
+		h, err := d.Data.Next()
+		if err == io.EOF {
+			break
+		}
+		if err != nil {
+			return errf("reading the data tar (%s): %v", tarMemberName("data", m.DataCodec), err)
+		}
+		tf := TarFile{Name: h.Name, Type: tarTypeName(h.Typeflag), Link: h.Linkname}
+		if tf.Type == "reg" {
+			b, err := io.ReadAll(d.Data)
+			if err != nil {
+				return errf("reading %s from the data tar: %v", h.Name, err)
+			}
+			tf.Content = b
+		}
+		got = append(got, tf)
+		if len(got) > len(m.DataFiles)+5 {
+			break
+		}
+	}
+	if len(got) != len(m.DataFiles) {
+		return errf("data tar (%s) lists %d entries %q, %d were packaged %q", tarMemberName("data", m.DataCodec), len(got), tarNames(got), len(m.DataFiles), tarNames(m.DataFiles))
+	}
+	for i, w := range m.DataFiles {
+		g := got[i]
+		if g.Name != w.Name || g.Type != w.Type || g.Link != w.Link || !bytes.Equal(g.Content, w.Content) {
+			return errf("data tar entry %d = (%s, %s, %d bytes), packaged (%s, %s, %d bytes)", i, g.Name, g.Type, len(g.Content), w.Name, w.Type, len(w.Content))
+		}
+	}
+	return nil
+}
+
+var specC14Overlap = Register(&Spec[OverlapCase]{
+	Prop: "C14", Name: "overlap",
+	Rule: "two generated packages A and B (codecs drawn independently, often equal), or the same bytes twice, are loaded one after the other, a third handle on A is opened as well, and only then are the three data streams drained, in a generated order. Oracle: every handle exposes its own package's control fields and lists exactly its own packaged files and contents - handles are independent of what else is open. Non-trivial: both packages use a compressed data member; distinct by the two archives and the order.",
+	Check: func(c OverlapCase, r *Recorder) error {
+		mb := c.B
+		if c.SameBytes {
+			mb = c.A
+		}
+		rawA, _, err := buildDeb(c.A)
+		if err == nil {
+			_, _, err = buildDeb(mb)
+		}
+		if err != nil {
+			if cu, ok := err.(codecUnavailable); ok {
+				r.Count("skipped_external:"+cu.codec, 1)
+				return nil
+			}
+			return errf("HARNESS: %v", err)
+		}
+		rawB, _, _ := buildDeb(mb)
+		nt := c.A.DataCodec != "" && mb.DataCodec != ""
+		r.Case(string(rawA)+"|"+string(rawB)+jsonKey(c.ReadOrder), nt, "codecs:"+c.A.DataCodec+"+"+mb.DataCodec)
+		if nt {
+			r.Sample(map[string]interface{}{"a": tarMemberName("data", c.A.DataCodec), "b": tarMemberName("data", mb.DataCodec), "sameBytes": c.SameBytes, "readOrder": c.ReadOrder})
+		}
+		models := []DebModel{c.A, mb, c.A}
+		raws := [][]byte{rawA, rawB, rawA}
+		handles := make([]*deb.Deb, 3)
+		for i := range handles {
+			d, err := deb.Load(bytes.NewReader(raws[i]), "p.deb")
+			if err != nil {
+				return errf("load %d (%s) failed while other packages are open: %v", i, tarMemberName("data", models[i].DataCodec), err)
+			}
+			defer d.Close()
+			handles[i] = d
+		}
+		for i, d := range handles {
+			if err := compareStruct(reflect.ValueOf(d.Control), models[i].Exp, "Deb.Control"); err != nil {
+				return errf("handle %d: %v", i, err)
+			}
+		}
+		order := c.ReadOrder
+		if len(order) != 3 {
+			order = []int{0, 1, 2}
+		}
+		for _, i := range order {
+			if i < 0 || i > 2 {
+				return nil
+			}
+			if err := drainData(handles[i], models[i]); err != nil {
+				return errf("handle %d of 3 open packages (drain order %v): %v", i, order, err)
+			}
+		}
+		return nil
+	},
+})
+
+func TestC14_Overlap(t *testing.T) {
+	specC14Overlap.Run(t, func(t *rapid.T) OverlapCase {
+		c := OverlapCase{A: genDebModel(t), SameBytes: rapid.IntRange(0, 3).Draw(t, "same") == 0}
+		c.B = genDebModel(t)
+		if rapid.Bool().Draw(t, "sameCodec") {
+			c.B.DataCodec, c.B.CtlCodec = c.A.DataCodec, c.A.CtlCodec
+		}
+		c.ReadOrder = rapid.Permutation([]int{0, 1, 2}).Draw(t, "order")
+		return c
+	}, 150, 2000)
+}
+
 // ------------------------------------------------------------------ rejections
 
 type RejectCase struct {
